@@ -81,7 +81,9 @@ def main():
         meta = json.load(open(os.path.join(ROOT, "seeded", s, "meta.json")))
         need = (meta.get("needs_to_manifest") or "").replace("\n", " ").replace("|", "/")[:160]
         db = meta.get("detected_by") or {}
-        lines.append(f"| {s} | {meta['property']} | {need} | " + "; ".join(f"{k}: {v}" for k, v in sorted(db.items())) + " |")
+        # the target property's check, plus any other check that also catches the change
+        shown = {k: v for k, v in db.items() if k.startswith(meta['property'] + "/") or v.startswith("detected")}
+        lines.append(f"| {s} | {meta['property']} | {need} | " + "; ".join(f"{k}: {v}" for k, v in sorted(shown.items())) + " |")
     open(os.path.join(ROOT, "seeded", "RESULTS.md"), "w").write("\n".join(lines) + "\n")
 
 
